@@ -1,13 +1,14 @@
 (* Non-vacuity for C01: a concrete composed model meeting the theorems' hypotheses. *)
 From Coq Require Import List String Permutation ZArith.
 From Coq Require Import Floats.PrimFloat Lia.
-From PAFC01 Require Import ModelTree Sorting Proofs Proofs2 Proofs3 Proofs4 Model Proofs5 Proofs6.
+From PAFC01 Require Import ModelTree Sorting Proofs Proofs2 Proofs3 Proofs4 Model Proofs5 Proofs6 Proofs7.
 Import ListNotations.
 Local Open Scope string_scope.
 Local Open Scope list_scope.
 
 Definition zbin (o : binop) (a b : Z) : Z :=
-  match o with OAdd => (a + b)%Z | OSub => (a - b)%Z | OMul => (a * b)%Z | ODiv => (a / b)%Z end.
+  match o with OAdd => (a + b)%Z | OSub => (a - b)%Z | OMul => (a * b)%Z | ODiv => (a / b)%Z
+  | OFloorDiv => (a / b)%Z | OMod => (a mod b)%Z end.   (* Z.div / Z.modulo: floor division, remainder with the sign of the divisor *)
 
 Definition zun (o : unop) (a : Z) : Z := match o with UNeg => (- a)%Z | UAbs => Z.abs a end.
 
@@ -213,3 +214,25 @@ Example funop_signs :
   map (funop UAbs) [0.5%float; (-0.25)%float] = [0.5%float; 0.25%float] /\
   PyFloat.fbits_eqb (funop UNeg 0%float) (-0)%float = true /\ PyFloat.fbits_eqb (funop UAbs (-0)%float) 0%float = true.
 Proof. vm_compute. repeat split; reflexivity. Qed.
+
+(* ---------- // and %: the sign of the divisor (C01_mod_floordiv_Q is not vacuous: b <> 0), over Q, Z and binary64 ---------- *)
+Example mod_sign_of_divisor_Q :
+  QArith_base.Qeq (Proofs7.qbin OMod (QArith_base.Qmake (-30) 1) (QArith_base.Qmake 360 1)) (QArith_base.Qmake 330 1) /\
+  QArith_base.Qeq (Proofs7.qbin OFloorDiv (QArith_base.Qmake (-30) 1) (QArith_base.Qmake 360 1)) (QArith_base.Qmake (-1) 1) /\
+  QArith_base.Qeq (Proofs7.qbin OMod (QArith_base.Qmake 7 2) (QArith_base.Qmake (-2) 1)) (QArith_base.Qmake (-1) 2) /\
+  QArith_base.Qeq (Proofs7.qbin OFloorDiv (QArith_base.Qmake 7 2) (QArith_base.Qmake (-2) 1)) (QArith_base.Qmake (-2) 1).
+Proof. vm_compute. repeat split; reflexivity. Qed.
+Example mod_sign_of_divisor_Z : zbin OMod (-30) 360 = 330%Z /\ zbin OFloorDiv (-30) 360 = (-1)%Z /\ zbin OMod 7 (-2) = (-1)%Z.
+Proof. vm_compute. repeat split; reflexivity. Qed.
+Example mod_sign_of_divisor_float :
+  fbin OMod (-30)%float 360%float = 330%float /\ fbin OFloorDiv (-30)%float 360%float = (-1)%float /\
+  fbin OMod 3.5%float (-2)%float = (-0.5)%float /\ fbin OFloorDiv 3.5%float (-2)%float = (-2)%float /\
+  PyFloat.fbits_eqb (fbin OMod (-4)%float 2%float) 0%float = true /\ PyFloat.fbits_eqb (fbin OMod 4%float (-2)%float) (-0)%float = true.
+Proof. vm_compute. repeat split; reflexivity. Qed.
+(* a model using them: Collection(g = Model(G2, a = p0 % 360, b = 7 // p1)) *)
+Example exmod_instance :
+  inst_from_vector Z zbin zun
+    (NColl [("g", NModel "G2" ["a"; "b"] [("a", NBin OMod "p0" "other" (NPrior 0) (NConst 360%Z));
+                                            ("b", NBin OFloorDiv "other" "self" (NConst 7%Z) (NPrior 1))])]) [(-30)%Z; (-2)%Z]
+  = IColl [("g", IObj "G2" [("a", IV 330%Z); ("b", IV (-4)%Z)])].
+Proof. vm_compute. reflexivity. Qed.
